@@ -185,6 +185,7 @@ def run(ctx):
     wb = 2 if ctx.quick else 3
     wtasks = [(p, wb) for p in WRITER_PAIRS] + [(t, 1 if ctx.quick else 2) for t in WRITER_TRIPLES]
     pmap_acc(work_writers, ctx.order(wtasks), ctx.acc, jobs=ctx.jobs)
+    pmap_acc(work_process_exit, [[b] for b in sorted(_B_PROGRAMS)], ctx.acc, jobs=ctx.jobs)
     kinds = ["ENOSPC", "EIO", "EPERM", "KeyboardInterrupt"]
     ftasks = [(name, kinds, not ctx.quick) for name in ctx.order(sorted(FAULT_SCENARIOS))]
     pmap_acc(work_faults, ftasks, ctx.acc, jobs=ctx.jobs)
@@ -521,7 +522,7 @@ def case_fault(acc, name, idx, kind, idx2=None):
 def _baseline(en, op):
     root = en.fresh()
     old = crashfs.snapshot(root)
-    ctl, outcome = crashfs.run_op(root, op, site_filter=_site_ok)
+    ctl, outcome = crashfs.run_op(root, op, site_filter=_site_ok, all_ops=True)
     if outcome[0] != "ok":
         raise HarnessError("fault-free run of the operation failed: %r" % (outcome,))
     new = crashfs.snapshot(root)
@@ -531,15 +532,34 @@ def _baseline(en, op):
 def _fault_one(acc, en, name, op, idx, kind, idx2=None, base=None):
     old, new, steps = base or _baseline(en, op)
     root = en.fresh()
-    ctl, outcome = crashfs.run_op(root, op, fault_at=idx, fault_kind=kind, site_filter=_site_ok, second_fault_at=idx2)
+    protected = _protected(steps)
+    seen_bad = []
+
+    def probe(ctl, op_, rel_):
+        # a reader between any two system calls of the failure handling sees whole-old or whole-new
+        for rel in protected:
+            c = _read(os.path.join(root, rel))
+            if c != old.get(rel) and c != new.get(rel) and not seen_bad:
+                seen_bad.append((rel, c, op_, rel_))
+
+    ctl, outcome = crashfs.run_op(root, op, probe=probe, fault_at=idx, fault_kind=kind, site_filter=_site_ok, second_fault_at=idx2, all_ops=True)
     if not ctl.injected:
         raise HarnessError("fault site %d not reached in %s" % (idx, name))
     now = crashfs.snapshot(root)
     site = steps[idx] if idx < len(steps) else ("?", "?", None)
     desc = "%s at step %d (%s %s)%s" % (kind, idx, site[0], site[1], "" if idx2 is None else " and step %d" % idx2)
+    if seen_bad:
+        rel, c, op_, rel_ = seen_bad[0]
+        acc.violation("fault:%s:reader-sees-neither-old-nor-new-during-failure-handling" % name,
+                      "after %s, before the next call (%s %s), %s is %s (old %s, new %s)" % (desc, op_, rel_, rel, _d(c), _d(old.get(rel)), _d(new.get(rel))),
+                      rp(case_fault, name, idx, kind, idx2))
+    if ctl.locks_at_raise:
+        acc.violation("fault:%s:lock-still-held-when-error-reaches-caller" % name,
+                      "%s propagated out of %s while %r still exist(s); a retry by the caller fails with FileLocked" % (
+                          outcome[1].split(":")[0], name, ctl.locks_at_raise) + " [" + desc + "]",
+                      rp(case_fault, name, idx, kind, idx2))
     acc.count("fault_executions")
     acc.outcome("fault:%s:%s:%s" % (name, site[0], outcome[0] if outcome[0] != "exc" else "exc:" + outcome[1].split(":")[0]))
-    protected = _protected(steps)
     for key, summary in _judge_fault(name, old, new, now, outcome, desc, protected):
         acc.violation(key, summary, rp(case_fault, name, idx, kind, idx2))
 
@@ -557,15 +577,23 @@ def work_faults(task):
         acc.sample({"fault_scenario": name, "mutating_steps": [list(s) for s in steps][:12], "n_steps": len(steps)}, cap=4)
         if base[0] == base[1]:
             raise HarnessError("operation %s changed nothing: vacuous scenario" % name)
+        from engines import fsint as _fs
+
         for i in range(len(steps)):
-            for kind in kinds:
+            # OSError faults where the statement puts them (mutating calls); an asynchronous
+            # KeyboardInterrupt can land before any call, reads included
+            for kind in (kinds if steps[i][0] in _fs.MUTATING else ["KeyboardInterrupt"]):
                 _fault_one(acc, en, name, op, i, kind, None, base)
         if depth2:
             for i in range(len(steps)):
+                if steps[i][0] not in _fs.MUTATING:
+                    continue
                 # second fault: any later site of the *faulted* run (clean-up path); discover by index
                 for j in range(i + 1, i + 6):
                     root = en.fresh()
-                    ctl, outcome = crashfs.run_op(root, op, fault_at=i, fault_kind="EIO", site_filter=_site_ok, second_fault_at=j)
+                    ctl, outcome = crashfs.run_op(root, op, fault_at=i, fault_kind="EIO", site_filter=_site_ok, second_fault_at=j, all_ops=True)
+                    if len(ctl.steps) > j and ctl.steps[j][0] not in _fs.MUTATING:
+                        continue
                     if len(ctl.steps) <= j:
                         break
                     now = crashfs.snapshot(root)
@@ -662,4 +690,68 @@ def work_writers(task):
     sc = WritersScenario(names)
     st = sysched.explore_scenario(sc, bound)
     _absorb(acc, st, ("writers", list(names), bound))
+    return acc
+
+
+# =========================================================================== (4) real process exit
+
+import subprocess  # noqa: E402
+import sys as _sys  # noqa: E402
+
+_B_PROGRAMS = {
+    "tries-same-lock-then-exits": "try:\n    GitFile(p, 'wb')\nexcept FileLocked:\n    pass\n",
+    "tries-same-lock-unhandled-exception": "GitFile(p, 'wb')\n",
+    "tries-same-lock-sys-exit-1": "try:\n    GitFile(p, 'wb')\nexcept FileLocked:\n    sys.exit(1)\n",
+    "writes-other-file-closes": "f = GitFile(p + '2', 'wb'); f.write(b'other'); f.close()\n",
+    "writes-other-file-aborts": "f = GitFile(p + '2', 'wb'); f.write(b'other'); f.abort()\n",
+    "reads-target": "open(p, 'rb').read()\n",
+}
+
+
+def case_process_exit(acc, bname):
+    """Actor A (this process) holds the lock on a file while actor B — a real OS process, so that
+    interpreter-exit handlers run — executes a short program and terminates.  Releasing, failing to
+    obtain, or merely exiting must not disturb A's lock."""
+    from dulwich.file import GitFile
+    from engines.common import REPO, fresh_dir, rmtree
+
+    d = fresh_dir("px")
+    try:
+        p = os.path.join(d, "f")
+        with open(p, "wb") as f:
+            f.write(INITIAL)
+        a = GitFile(p, "wb")
+        a.write(b"from-A\n")
+        ino = os.lstat(p + ".lock").st_ino
+        script = "import sys\nsys.path.insert(0, %r)\nfrom dulwich.file import GitFile, FileLocked\np = %r\n%s" % (REPO, p, _B_PROGRAMS[bname])
+        r = subprocess.run([_sys.executable, "-c", script], capture_output=True, timeout=60,
+                           env={"PATH": os.environ.get("PATH", ""), "PYTHONHASHSEED": "0", "PYTHONDONTWRITEBYTECODE": "1"})
+        acc.count("process_exit_cases")
+        acc.outcome("process-exit:%s:rc=%d" % (bname, r.returncode))
+        try:
+            st = os.lstat(p + ".lock")
+        except FileNotFoundError:
+            st = None
+        if st is None or st.st_ino != ino:
+            acc.violation("process-exit:lock-of-another-process-removed",
+                          "B (%s) terminated (rc=%d) and A's lock file %s" % (bname, r.returncode, "is gone" if st is None else "was replaced"),
+                          rp(case_process_exit, bname))
+        try:
+            a.close()
+            ok = _read(p) == b"from-A\n"
+            why = "content %r" % _read(p)
+        except Exception as e:
+            ok = False
+            why = "%s: %s" % (type(e).__name__, e)
+        if not ok:
+            acc.violation("process-exit:holder-cannot-commit", "after B (%s) terminated, A.close(): %s" % (bname, why.replace(d, "<d>")),
+                          rp(case_process_exit, bname))
+    finally:
+        rmtree(d)
+
+
+def work_process_exit(task):
+    acc = Acc()
+    for b in task:
+        case_process_exit(acc, b)
     return acc
